@@ -683,6 +683,59 @@ func propTable() map[string]*PropSpec {
 		sp.Bounds = append(sp.Bounds, "thorough tier: each assertion verdict is accepted only if two SMT back ends (of cvc5 int-blasting, z3 5.1, cvc5) give it, when a second one answers within the time limit")
 	}
 
+	// weighted committees: the single-node harnesses take their weights from the "weights" parameter; the thorough
+	// tier repeats a spread of configurations with weights [1,2,3,4] (W=10, f=3, Q=7) and [3,1,1,1] (W=6, f=1, Q=5),
+	// where "number of members" and "weight" no longer coincide; a few cheap ones also run in the quick tier
+	for _, id := range []string{"C03", "C04", "C07", "C08", "C10", "C11"} {
+		sp := t[id]
+		var extra []RunConfig
+		for i, c := range sp.Thorough {
+			if _, has := c.Params["weights"]; has {
+				continue
+			}
+			stride := 3
+			if id == "C10" {
+				stride = 17
+			}
+			if i%stride != 0 {
+				continue
+			}
+			for _, w := range []int{2, 1} {
+				if w == 1 && i%(2*stride) != 0 {
+					continue
+				}
+				r := c
+				r.Params = map[string]int{}
+				for k, v := range c.Params {
+					r.Params[k] = v
+				}
+				r.Params["weights"] = w
+				r.Name += fmt.Sprintf("/weights=%d", w)
+				r.RequireReach = nil // reachability is validated in the equal-weight runs
+				extra = append(extra, r)
+			}
+		}
+		sp.Thorough = append(sp.Thorough, extra...)
+		sp.Bounds = append(sp.Bounds, "thorough tier: every third configuration (C10: every 17th) is repeated with committee weights [1,2,3,4], every sixth also with [3,1,1,1]")
+	}
+	for _, pick := range []struct{ id, name string }{{"C08", "C08_OneMessage/prefix=4/kind=VC/prepares=2"}, {"C08", "C08_OneMessage/prefix=2/kind=P"}, {"C03", "C03_Commits/me=1/honest=1/sym=2"}} {
+		sp := t[pick.id]
+		for _, c := range sp.Quick {
+			if c.Name == pick.name {
+				r := c
+				r.Params = map[string]int{}
+				for k, v := range c.Params {
+					r.Params[k] = v
+				}
+				r.Params["weights"] = 2
+				r.Name += "/weights=2"
+				r.RequireReach = nil
+				sp.Quick = append(sp.Quick, r)
+				break
+			}
+		}
+	}
+
 	// map iteration order is unspecified in Go: the thorough tier repeats the runs whose outcome could depend on
 	// it (stored votes / commits are collected by ranging over maps) with every map range reversed
 	for _, id := range []string{"C03", "C04", "C09", "C11"} {
